@@ -46,12 +46,13 @@ def check_outputs(meta, run):
     return None
 
 
-def cli_case(build, mode, kind, explicit=False):
+def cli_case(build, mode, kind, explicit=False, early=False):
     d = tempfile.mkdtemp(prefix='c06-', dir=SCRATCH_ROOT)
     try:
         n, k = 5, 3
         with open(os.path.join(d, 'prog.py'), 'w') as fh:
-            src = kplib.prog_text(n, k, kind)
+            # early: the program ends before any line of a profiled function has run (e.g. while checking its arguments)
+            src = kplib.prog_text(n, k, kind, extra='crash(%r)' % kind if early else '')
             if explicit:
                 src = src.replace('try:\n    profile\nexcept NameError:\n    def profile(f):\n        return f\n', 'from line_profiler import profile\n')
             fh.write(src)
@@ -135,32 +136,37 @@ def run(ctx):
         if crashed:
             nontrivial.add(json.dumps(meta, sort_keys=True))
     # the real command line and the explicit profiler, one process per termination kind
-    cli = [(m, k, False) for m in (['l', 'b', 'lm', 'lp'] if ctx.quick else list(kplib.MODES)) for k in kplib.KINDS] + [('explicit', k, True) for k in kplib.KINDS]
+    cli = [(m, k, False, False) for m in (['l', 'b', 'lm', 'lp'] if ctx.quick else list(kplib.MODES)) for k in kplib.KINDS] + [('explicit', k, True, False) for k in kplib.KINDS]
+    cli += [(m, k, x, True) for (m, x) in ([('l', False), ('explicit', True)] if ctx.quick else [(m, False) for m in kplib.MODES] + [('explicit', True)]) for k in kplib.KINDS if k != 'none']
     with cf.ThreadPoolExecutor(max_workers=12) as ex:
-        cres = list(ex.map(lambda c: cli_case(build, c[0], c[1], c[2]), cli))
-    for (mode, kind, explicit), r in zip(cli, cres):
+        cres = list(ex.map(lambda c: cli_case(build, c[0], c[1], c[2], c[3]), cli))
+    for (mode, kind, explicit, early), r in zip(cli, cres):
         lbl = explicit or kplib.MODES[mode][1]
         exp = {kplib.WORK_LINES[a] + (0 if explicit else 0): v for a, v in kplib.expected_hits(r['n'], r['k'], kind).items() if v}
+        if early and kind != 'none':
+            exp = {}
         ok = True
         why = {}
         want_file = ('profile_output.lprof' if explicit else None)
         if lbl:
             hits = (r['hits'] or {}).get('work')
             got = {off - 1: h for off, h in hits} if hits else None
-            if got != exp:
+            if (got or {}) != exp if early else got != exp:
                 ok, why = False, {'hits_reported': got, 'hits_executed': exp}
         if not explicit and not any(f.endswith(('.lprof', '.prof')) for f in r['files']):
             ok, why = False, {'no_stats_file': r['files']}
         if explicit and want_file not in r['files']:
             ok, why = False, {'missing': want_file, 'files': r['files']}
-        want_rc = {'none': [0], 'exit': [0] if not explicit else [3], 'kbint': [0] if not explicit else [-2, 130, 1], 'error': [1]}[kind]
+        # the exit status after KeyboardInterrupt is not part of the property: kernprof catches it and writes the file; CPython then ends
+        # the process with SIGINT when the interrupt crossed an exec() of a *string* (cProfile's runctx) and nothing reset its flag
+        want_rc = {'none': [0], 'exit': [0] if not explicit else [3], 'kbint': [0, -2, 130] if not explicit else [-2, 130, 1], 'error': [1]}[kind]
         if r['rc'] not in want_rc:
             ok, why = False, dict(why, exit_code=r['rc'], expected_one_of=want_rc)
         if kind == 'error' and 'ValueError' not in r['stderr_tail']:
             ok, why = False, dict(why, traceback_missing=r['stderr_tail'])
         if not ok:
             ctx.fail('results were not delivered by the real command line / explicit profiler for this ending',
-                     {'finding_class': None, 'cli_case': {'mode': mode, 'kind': kind}, 'difference': why, 'real': r})
+                     {'finding_class': None, 'cli_case': {'mode': mode, 'kind': kind, 'ends_before_any_profiled_line': early}, 'difference': why, 'real': r})
     ctx.coverage.update({
         'evaluations': len(scs) + len(cli), 'distinct_nontrivial': len(nontrivial),
         'rule': '9 run modes x {normal end, sys.exit, KeyboardInterrupt, uncaught ValueError} x crash point k of a loop of n=5 (quick: 3 points; thorough: every k in -1..n) '
